@@ -17,10 +17,10 @@ var errVerifTimeout = errors.New("timeout")
 // verifReader serves a fixed byte stream, then times out; it records how each
 // byte was requested.
 type verifReader struct {
-	data      []byte
-	pos       int
-	blocking  []bool // per delivered byte: was it requested without timeout?
-	blockedAtEnd bool // a read without timeout was issued after the data ran out
+	data         []byte
+	pos          int
+	blocking     []bool // per delivered byte: was it requested without timeout?
+	blockedAtEnd bool   // a read without timeout was issued after the data ran out
 }
 
 func (r *verifReader) ReadByteWithTimeout(timeout time.Duration) (byte, error) {
